@@ -94,9 +94,12 @@ class Gen:
                 # a new leader overwrites the uncommitted tail
                 self.term += 1
                 self.last = r.randint(self.commit, self.last - 1)
+            biggest = 0
             for _k in range(n):
                 self.last += 1
-                ents.append("%d %d %d %s" % (r.choice([0, 0, 0, 1]), self.term, self.last, hxn(self.payload())))
+                pl = self.payload()
+                biggest = max(biggest, len(pl or b""))
+                ents.append("%d %d %d %s" % (r.choice([0, 0, 0, 1]), self.term, self.last, hxn(pl)))
             c = r.random()
             if c < 0.15:
                 st = (0, 0, 0)
@@ -110,6 +113,14 @@ class Gen:
                     self.commit = r.randint(self.commit, self.last)
                 st = (self.term, self.vote, self.commit)
             self.lines.append(("WS %d %d %d %d " % (st + (n,)) + " ".join(ents)).strip())
+            if biggest > self.seg - 700 and self.last > 2 and r.random() < 0.8:
+                # a record that fills the segment: the cut may be left to the NEXT Save.  Directed follow-up (seeded change C16-savesnapshot-enti-unconditional:
+                # the name of the next segment was derived from the last SNAPSHOT index): a snapshot BEHIND the log end, then a Save without entries (it performs
+                # the pending cut), then a later snapshot still behind the log end
+                self.lines.append("WN %d %d 3" % (self.last - 2, self.term))
+                self.commit = max(self.commit, self.last - 1)
+                self.lines.append("WS %d %d %d 0" % (self.term, self.vote, self.commit))
+                self.lines.append("WN %d %d 3" % (self.last - 1, self.term))
         self.lines.append("WX")
         return self.lines
 
